@@ -19,17 +19,20 @@ func (p *partitionLocker) locked(id string) (ok bool) {
 }
 
 func (p *partitionLocker) lock(id string) {
+	verifTrace("want", id, nil)
 	p.l.Lock()
 	defer p.l.Unlock()
 	for p.locked(id) {
 		p.c.Wait()
 	}
 	p.s[id] = struct{}{}
+	verifTrace("lock", id, nil)
 }
 
 func (p *partitionLocker) unlock(id string) {
 	p.l.Lock()
 	defer p.l.Unlock()
 	delete(p.s, id)
+	verifTrace("unlock", id, nil)
 	p.c.Broadcast()
 }
